@@ -42,7 +42,7 @@ fn hash_array_into(array: &ArrayRef, hashes: &mut [u64]) {
         let nulls = arr.nulls();
         for i in 0..num_rows {
             if nulls.map_or(true, |n| n.is_valid(i)) {
-                hashes[i] = combine_hash(hashes[i], values[i].to_bits());
+                hashes[i] = combine_hash(hashes[i], float_hash_bits(values[i]));
             }
         }
     } else if let Some(arr) = array.as_any().downcast_ref::<StringArray>() {
@@ -96,6 +96,21 @@ fn combine_hash(seed: u64, value: u64) -> u64 {
     seed.wrapping_mul(0x9e3779b97f4a7c15).wrapping_add(value)
 }
 
+/// Bits to hash a DOUBLE key by: values the comparisons below treat as EQUAL
+/// must hash alike. `-0.0 == 0.0`, and grouping puts all NaNs (any payload)
+/// into one group; hashing raw bits sent them to different buckets, so
+/// whether they met depended on the table size.
+#[inline(always)]
+fn float_hash_bits(v: f64) -> u64 {
+    if v == 0.0 {
+        0
+    } else if v.is_nan() {
+        f64::NAN.to_bits()
+    } else {
+        v.to_bits()
+    }
+}
+
 /// Hash of a single non-null i64 key — exactly what `hash_arrays` computes
 /// for a one-column Int64 key, for point lookups into tables built with it.
 #[inline(always)]
@@ -146,10 +161,25 @@ pub fn compare_row_null_eq(
         match (a.is_null(row_a), b.is_null(row_b)) {
             (true, true) => continue,
             (false, false) if compare_array_values(a, row_a, b, row_b) => continue,
+            // Grouping: NaN is not distinct from NaN either (one NaN group,
+            // as in every other aggregation path). A join still never
+            // matches NaN — `compare_row` does not come through here.
+            (false, false) if both_nan(a, row_a, b, row_b) => continue,
             _ => return false,
         }
     }
     true
+}
+
+#[inline]
+fn both_nan(a: &ArrayRef, row_a: usize, b: &ArrayRef, row_b: usize) -> bool {
+    match (
+        a.as_any().downcast_ref::<arrow::array::Float64Array>(),
+        b.as_any().downcast_ref::<arrow::array::Float64Array>(),
+    ) {
+        (Some(aa), Some(bb)) => aa.value(row_a).is_nan() && bb.value(row_b).is_nan(),
+        _ => false,
+    }
 }
 
 /// Compare a single value between two arrays at given rows.
@@ -351,6 +381,28 @@ mod tests {
         // Join semantics are unchanged: a NULL key matches nothing
         assert!(!compare_row(&keys, 0, &keys, 0));
         assert!(compare_row(&keys, 3, &keys, 3));
+    }
+
+    #[test]
+    fn test_float_keys_hash_like_they_compare() {
+        let f: ArrayRef = Arc::new(Float64Array::from(vec![
+            0.0,
+            -0.0,
+            f64::NAN,
+            -f64::NAN,
+            1.5,
+        ]));
+        let keys = [f];
+        let hashes = hash_arrays(&keys, 5);
+        // -0.0 == 0.0: same hash, equal for joins and for grouping
+        assert_eq!(hashes[0], hashes[1]);
+        assert!(compare_row(&keys, 0, &keys, 1));
+        assert!(compare_row_null_eq(&keys, 0, &keys, 1));
+        // NaNs: one group, but never a join match
+        assert_eq!(hashes[2], hashes[3]);
+        assert!(compare_row_null_eq(&keys, 2, &keys, 3));
+        assert!(!compare_row(&keys, 2, &keys, 2));
+        assert!(!compare_row_null_eq(&keys, 2, &keys, 4));
     }
 
     #[test]
